@@ -1437,3 +1437,104 @@ mod tests {
         assert!(debug_str.ends_with('}'));
     }
 }
+
+// Verification hooks (compiled only with `--cfg mini_moka_verif`).
+#[cfg(mini_moka_verif)]
+impl<K, V, S> Cache<K, V, S>
+where
+    K: Hash + Eq,
+    S: BuildHasher + Clone,
+{
+    pub fn verif_set_clock(&mut self, mock: &crate::verif::MockClock) {
+        self.expiration_clock = Some(mock.clock());
+    }
+
+    /// The popularity estimate the admission policy would read for `key` now.
+    pub fn verif_frequency(&self, key: &K) -> u8 {
+        self.frequency_sketch
+            .frequency(self.build_hasher.hash_one(key))
+    }
+
+    /// Canonical text rendering of the whole internal state (see /verif/DESIGN.md).
+    pub fn verif_snapshot(
+        &self,
+        base: std::time::Instant,
+        fk: &dyn Fn(&K) -> u64,
+        fv: &dyn Fn(&V) -> u64,
+    ) -> String {
+        use crate::verif::{fmt_sketch, fmt_ts};
+        use std::fmt::Write;
+
+        let (ao_nodes, ao_problem) = self.deques.probation.verif_walk();
+        let (wo_nodes, wo_problem) = self.deques.write_order.verif_walk();
+        let pos = |nodes: &[usize], p: Option<usize>| match p {
+            None => "-".to_string(),
+            Some(p) => match nodes.iter().position(|n| *n == p) {
+                Some(i) => i.to_string(),
+                None => "!".to_string(),
+            },
+        };
+        let ao_addrs: Vec<usize> = ao_nodes.iter().map(|n| n.as_ptr() as usize).collect();
+        let wo_addrs: Vec<usize> = wo_nodes.iter().map(|n| n.as_ptr() as usize).collect();
+
+        let mut out = String::new();
+        let _ = write!(
+            out,
+            "ec={} ws={} skon={} map=[",
+            self.entry_count, self.weighted_size, self.frequency_sketch_enabled as u8
+        );
+        let mut entries: Vec<(u64, String)> = self
+            .cache
+            .iter()
+            .map(|(k, e)| {
+                let ao = e
+                    .access_order_q_node()
+                    .map(|n| n.decompose_ptr() as usize);
+                let wo = e.write_order_q_node().map(|n| n.as_ptr() as usize);
+                (
+                    fk(k),
+                    format!(
+                        "{}:{}:{}:{}:{}",
+                        fk(k),
+                        fv(&e.value),
+                        e.policy_weight(),
+                        pos(&ao_addrs, ao),
+                        pos(&wo_addrs, wo)
+                    ),
+                )
+            })
+            .collect();
+        entries.sort();
+        let strs: Vec<String> = entries.into_iter().map(|(_, s)| s).collect();
+        out.push_str(&strs.join(","));
+        out.push_str("] prob=[");
+        let strs: Vec<String> = ao_nodes
+            .iter()
+            .map(|n| {
+                let e = unsafe { Deque::verif_element(*n) };
+                format!("{}:{}:{}", fk(&e.key), e.hash, fmt_ts(base, e.timestamp))
+            })
+            .collect();
+        out.push_str(&strs.join(","));
+        out.push_str("] wo=[");
+        let strs: Vec<String> = wo_nodes
+            .iter()
+            .map(|n| {
+                let e = unsafe { Deque::verif_element(*n) };
+                format!("{}:{}", fk(&e.key), fmt_ts(base, e.timestamp))
+            })
+            .collect();
+        out.push_str(&strs.join(","));
+        out.push_str("] ");
+        out.push_str(&fmt_sketch(&self.frequency_sketch));
+        let others = self.deques.window.verif_len() + self.deques.protected.verif_len();
+        let walk = match (ao_problem, wo_problem) {
+            (None, None) if others == 0 => "ok".to_string(),
+            (None, None) => format!("window/protected deques hold {} nodes", others),
+            (Some(p), _) => format!("probation: {}", p),
+            (_, Some(p)) => format!("write_order: {}", p),
+        };
+        let _ = write!(out, " walk={}", walk.replace(' ', "_"));
+        out
+    }
+}
